@@ -6,6 +6,7 @@
 (*   comm    Val(a|b) = Val(b|a)            assoc   Val((a|b)|c) = Val(a|(b|c))       *)
 (*   idem    a|a = a  (value and metadata)  absorb  (a|b)|a = a|b = a|(a|b)  (a <= a|b)*)
 (*   inputs  a, b, c unchanged              clone   clone(a) = a                       *)
+(*   grow    what a (and b) holds is still in a|b, in the information order of the type *)
 (* comm-meta / assoc-meta: the same equalities on value + causal metadata.            *)
 (* Every line is consumed; failures are printed as <<"MISMATCH", line, type, law, cause>>. *)
 EXTENDS CrdtJson, Json
@@ -28,6 +29,7 @@ Check(e) ==
      /\ Rep(va("ab_c") # va("a_bc") \/ co("ab_c") = co("a_bc"), e, "assoc-meta", "")
      /\ Rep(co("aa") = co("a"), e, "idem", "")
      /\ Rep(co("ab_a") = co("ab") /\ co("a_ab") = co("ab"), e, "absorb", "")
+     /\ Rep(Grows(ty, co("a"), co("b"), co("ab")) /\ Grows(ty, co("b"), co("a"), co("ab")), e, "grow", "")
      /\ Rep(e.a2 = e.a /\ e.b2 = e.b /\ e.c2 = e.c, e, "inputs", "")
      /\ Rep(e.cl = e.a, e, "clone", "")
 
